@@ -43,7 +43,12 @@ def run_build(sc):
         if op["model"] == "Slack":
             d.update(a0=0.0)
             have_slack = True
-        idx = ss.add(op["model"], d)
+        try:
+            idx = ss.add(op["model"], d)
+        except Exception as ex:
+            # adding a device never fails because of the idx: a free explicit idx is kept, anything else gets a fresh one
+            ev.append(dict(e="addfail", model=op["model"], req=T(req), text="%s: %s" % (type(ex).__name__, str(ex)[:120])))
+            return dict(meta=dict(tid=sc["tid"], sid=sc["sid"]), ev=ev)
         adds.append(dict(model=op["model"], req=T(req), idx=T(idx), raw=idx, bus=bus))
     if not have_slack:
         idx = ss.add("Slack", dict(idx="SLK", bus=1, Vn=110.0, v0=1.0, a0=0.0, p0=0.1))
@@ -72,7 +77,11 @@ def run_build(sc):
         g = 1.0 / gam[T(t)]
         idx = ss.add("GENCLS", dict(idx="M%d" % (j + 1), bus=bus, gen=t, Vn=110.0, Sn=100.0, M=6.0, D=1.0, xd1=0.3, gammap=g, gammaq=g))
         refs.append({"from": T(idx), "to": T(t)})
-    if sc["dangling"]:
+    if sc["dangling"] == 2 and targets:
+        # an OPTIONAL reference (second machine of a cross-compound governor) that names a device which does not exist:
+        # not given is fine, given and unknown is a dangling reference like any other
+        ss.add("IEEEG1", dict(idx="GOV1", syn="M1", syn2="no_such_machine"))
+    elif sc["dangling"]:
         ss.add("GENCLS", dict(idx="MX", bus=1, gen="no_such_gen", Vn=110.0, Sn=100.0, M=6.0, D=1.0, xd1=0.3))
     # helper devices through DeviceFinder (PVD1.busfreq -> BusFreq)
     owners = []
